@@ -142,9 +142,16 @@ func isTimeType(t types.Type) bool {
 	return false
 }
 
+// zeroTimeNS stands for Go's zero time.Time (January 1, year 1 UTC): a sentinel
+// about 285 years before the Unix epoch (the real value does not fit the term
+// representation), outside every instant a clock reads or a harness timestamp
+// denotes (those lie within 200 years of now), so that IsZero does not hold for
+// the epoch itself. Ordering against real instants is preserved.
+var zeroTimeNS = IntC(-9000000000000000000)
+
 func zeroValue(t types.Type) Value {
 	if isTimeType(t) {
-		return &TimeV{NS: IntC(0)}
+		return &TimeV{NS: zeroTimeNS}
 	}
 	switch u := t.Underlying().(type) {
 	case *types.Basic:
